@@ -1,4 +1,220 @@
-(* C10 - applying build_diff(old, new) to old yields new. *)
-From Fiddle Require Import PyBase PySlice Sig ArgStore PyCall Heap Traverse Diff Anchors.
+(* C10 - "applying build_diff(old, new) to a copy of old yields new ..."
 
-Example C10_placeholder : True. Proof. exact I. Qed.
+   The model covers the APPLY half: Diff.apply_changes = diffing._apply_changes on a resolved diff.
+   Every parent path is looked up (Diff.resolve_parents, Heap.follow) in the structure as it is BEFORE
+   any change, then the operations run in five global phases (Diff.phase_order: deletes, tag
+   removals, modifications, sets, tag additions; inside a phase in diff order), each one overwriting
+   its parent node in place (Diff.apply_one / Diff.apply_op).  Statements only; proofs are in
+   theories/Diff_proofs.v.
+
+   What is proved:
+     C10_apply_length        no object is created or destroyed (ids, hence the root, are preserved);
+     C10_apply_frame         an object that is not the resolved parent of a change is untouched;
+     C10_apply_node          the five global phases decompose per parent object: the node at id i
+                             afterwards is apply_op folded over the changes whose parent resolves to
+                             i (changes_for e h root i cs phase), phase after phase;
+     C10_apply_run           ... the whole result is one left fold of apply_one over the resolved
+                             changes sorted by phase;
+     C10_apply_op_cases_*    what one operation does to its parent node;
+     C10_phase_order_matters another phase order gives another configuration.
+   No hypothesis is needed for the first four (the heap may be ill-formed, paths may dangle: a change
+   whose parent path does not resolve to an object does nothing). *)
+From Fiddle Require Import PyBase PySlice Sig ArgStore PyCall Heap Traverse Tags History Diff
+  Diff_proofs.
+From Coq Require Import List Permutation.
+Import ListNotations.
+Local Open Scope nat_scope.
+
+(* 1. identities are preserved *)
+Theorem C10_apply_length : forall (e : sigenv) (h : heap) (root : ref) (cs : list change),
+  length (apply_changes e h root cs) = length h.
+Proof. exact Diff_proofs.apply_length. Qed.
+Print Assumptions C10_apply_length.
+
+(* 2. frame *)
+Theorem C10_apply_frame : forall (e : sigenv) (h : heap) (root : ref) (cs : list change) (i : nat),
+  (forall c, In c cs -> follow e h root (parent_of c) <> Some (RP i)) ->
+  nth_error (apply_changes e h root cs) i = nth_error h i.
+Proof. exact Diff_proofs.apply_frame. Qed.
+Print Assumptions C10_apply_frame.
+
+(* 3. per parent node.  changes_for e h root i cs ty = the changes of type ty whose parent path
+   resolves to object i, in diff order:
+     filter (fun c => is_type ty c && resolves_to e h root i c) cs
+   and apply_ops l n = fold_left (fun n c => apply_op c n) l n. *)
+Theorem C10_apply_node : forall (e : sigenv) (h : heap) (root : ref) (cs : list change) (i : nat),
+  nth_error (apply_changes e h root cs) i
+  = option_map
+      (apply_ops (changes_for e h root i cs OpDelete ++ changes_for e h root i cs OpRemoveTag
+                  ++ changes_for e h root i cs OpModify ++ changes_for e h root i cs OpSet
+                  ++ changes_for e h root i cs OpAddTag))
+      (nth_error h i).
+Proof. exact Diff_proofs.apply_node. Qed.
+Print Assumptions C10_apply_node.
+
+Theorem C10_changes_for_spec : forall (e : sigenv) (h : heap) (root : ref) (i : nat) (cs : list change)
+                                      (ty : optype) (c : change),
+  In c (changes_for e h root i cs ty)
+  <-> In c cs /\ type_of c = ty /\ follow e h root (parent_of c) = Some (RP i).
+Proof. exact Diff_proofs.changes_for_spec. Qed.
+Print Assumptions C10_changes_for_spec.
+
+(* the five phases are one pass over the changes sorted by phase (phase_sort: stable) *)
+Theorem C10_apply_run : forall (e : sigenv) (h : heap) (root : ref) (cs : list change),
+  apply_changes e h root cs
+  = fold_left apply_one (resolve_parents e h root (phase_sort cs)) h.
+Proof. exact Diff_proofs.apply_changes_run. Qed.
+Print Assumptions C10_apply_run.
+
+(* 4. one operation on its parent node *)
+
+(* an assignment (CSet of a new argument, CModify of an old one) sets exactly that argument and
+   keeps the tags and the callable *)
+Theorem C10_apply_op_cases_set_attr : forall c p a v k fn args tags,
+  c = CSet p (LAttr a) v \/ c = CModify p (LAttr a) v ->
+  exists args',
+    apply_op c (NBuildable k fn args tags) = NBuildable k fn args' tags
+    /\ sget args' (KName a) = Some v
+    /\ (forall k', k' <> KName a -> sget args' k' = sget args k').
+Proof. exact Diff_proofs.apply_op_set_attr. Qed.
+Print Assumptions C10_apply_op_cases_set_attr.
+
+(* ... in place when the argument is set already, appended last otherwise *)
+Theorem C10_apply_op_cases_set_attr_keys : forall c p a v k fn args tags,
+  c = CSet p (LAttr a) v \/ c = CModify p (LAttr a) v ->
+  exists args',
+    apply_op c (NBuildable k fn args tags) = NBuildable k fn args' tags
+    /\ (In (KName a) (map fst args) -> map fst args' = map fst args)
+    /\ (~ In (KName a) (map fst args) -> args' = args ++ [(KName a, v)]).
+Proof. exact Diff_proofs.apply_op_set_attr_keys. Qed.
+Print Assumptions C10_apply_op_cases_set_attr_keys.
+
+(* CDelete removes exactly that argument (the keys of a Python dict are distinct) *)
+Theorem C10_apply_op_cases_delete_attr : forall p a k fn args tags,
+  exists args',
+    apply_op (CDelete p (LAttr a)) (NBuildable k fn args tags) = NBuildable k fn args' tags
+    /\ (NoDup (map fst args) -> sget args' (KName a) = None)
+    /\ (forall k', k' <> KName a -> sget args' k' = sget args k').
+Proof. exact Diff_proofs.apply_op_delete_attr. Qed.
+Print Assumptions C10_apply_op_cases_delete_attr.
+
+(* CAddTag / CRemoveTag change the tag set of that argument only, by that tag only *)
+Theorem C10_apply_op_cases_add_tag : forall p a t k fn args tags,
+  exists tags',
+    apply_op (CAddTag p a t) (NBuildable k fn args tags) = NBuildable k fn args tags'
+    /\ (forall x, In x (tags_get tags' (KName a)) <-> x = t \/ In x (tags_get tags (KName a)))
+    /\ (forall k', k' <> KName a -> tags_get tags' k' = tags_get tags k').
+Proof. exact Diff_proofs.apply_op_add_tag. Qed.
+Print Assumptions C10_apply_op_cases_add_tag.
+
+Theorem C10_apply_op_cases_remove_tag : forall p a t k fn args tags,
+  exists tags',
+    apply_op (CRemoveTag p a t) (NBuildable k fn args tags) = NBuildable k fn args tags'
+    /\ (forall x, In x (tags_get tags' (KName a)) <-> x <> t /\ In x (tags_get tags (KName a)))
+    /\ (forall k', k' <> KName a -> tags_get tags' k' = tags_get tags k').
+Proof. exact Diff_proofs.apply_op_remove_tag. Qed.
+Print Assumptions C10_apply_op_cases_remove_tag.
+
+(* update_callable changes the callable only *)
+Theorem C10_apply_op_cases_callable : forall p f k fn args tags,
+  apply_op (CModify p LFn (RA (ASym f))) (NBuildable k fn args tags) = NBuildable k f args tags.
+Proof. exact Diff_proofs.apply_op_callable. Qed.
+Print Assumptions C10_apply_op_cases_callable.
+
+(* dict items and list slots *)
+Theorem C10_apply_op_cases_dict_set : forall c p key v kvs,
+  c = CSet p (LKey key) v \/ c = CModify p (LKey key) v ->
+  exists kvs',
+    apply_op c (NDict kvs) = NDict kvs'
+    /\ dget atom_eqb kvs' key = Some v
+    /\ (forall k', k' <> key -> dget atom_eqb kvs' k' = dget atom_eqb kvs k').
+Proof. exact Diff_proofs.apply_op_dict_set. Qed.
+Print Assumptions C10_apply_op_cases_dict_set.
+
+Theorem C10_apply_op_cases_dict_delete : forall p key kvs,
+  exists kvs',
+    apply_op (CDelete p (LKey key)) (NDict kvs) = NDict kvs'
+    /\ (NoDup (map fst kvs) -> dget atom_eqb kvs' key = None)
+    /\ (forall k', k' <> key -> dget atom_eqb kvs' k' = dget atom_eqb kvs k').
+Proof. exact Diff_proofs.apply_op_dict_delete. Qed.
+Print Assumptions C10_apply_op_cases_dict_delete.
+
+Theorem C10_apply_op_cases_list_index : forall p i v xs,
+  exists xs',
+    apply_op (CModify p (LIndex i) v) (NList xs) = NList xs'
+    /\ length xs' = length xs
+    /\ (Z.to_nat i < length xs -> nth_error xs' (Z.to_nat i) = Some v)
+    /\ (forall j, j <> Z.to_nat i -> nth_error xs' j = nth_error xs j).
+Proof. exact Diff_proofs.apply_op_list_index. Qed.
+Print Assumptions C10_apply_op_cases_list_index.
+
+(* 5. the phase order is not vacuous: running the sets before the deletes (apply_changes_with =
+   _apply_changes with the phases in the given order; apply_changes is apply_changes_with
+   phase_order by definition) gives another configuration: "delete x; set x" then loses x. *)
+Theorem C10_phase_order_matters :
+  exists (e : sigenv) (h : heap) (root : ref) (cs : list change) (order : list optype),
+    Permutation order phase_order
+    /\ apply_changes_with e order h root cs <> apply_changes e h root cs.
+Proof. exact Diff_proofs.phase_order_matters. Qed.
+Print Assumptions C10_phase_order_matters.
+
+Theorem C10_apply_changes_with_phase_order : forall e h root cs,
+  apply_changes e h root cs = apply_changes_with e phase_order h root cs.
+Proof. exact Diff_proofs.apply_changes_with_phase_order. Qed.
+Print Assumptions C10_apply_changes_with_phase_order.
+
+(* ------------------------------------------------------------------------------------------ *)
+(* A concrete configuration: Config(f7, a1 = {"a": 1, "b": 2}, a2 = [10, 20],
+   a3 = Config(f8, a1 = 5) with tag 3 on a1), and a diff touching the dict, the list and the inner
+   Config with all five kinds of change. *)
+Definition ex_env : sigenv :=
+  [(7%N, [mkparam 1%N PosOrKw None false; mkparam 2%N PosOrKw None false;
+          mkparam 3%N PosOrKw (Some (RA ANone)) false]);
+   (8%N, [mkparam 1%N PosOrKw None false; mkparam 2%N PosOrKw None false])].
+Definition ex_heap : heap :=
+  [NDict [(AStr [97%N], RA (AInt 1)); (AStr [98%N], RA (AInt 2))];
+   NList [RA (AInt 10); RA (AInt 20)];
+   NBuildable BConfig 8%N [(KName 1%N, RA (AInt 5))] [(KName 1%N, [3%N])];
+   NBuildable BConfig 7%N [(KName 1%N, RP 0); (KName 2%N, RP 1); (KName 3%N, RP 2)] []].
+Definition ex_root : ref := RP 3.
+Definition ex_changes : list change :=
+  [CSet [PAttr 3%N] (LAttr 2%N) (RA (AInt 6));
+   CModify [PAttr 3%N] (LAttr 1%N) (RA (AInt 7));
+   CModify [PAttr 3%N] LFn (RA (ASym 9%N));
+   CAddTag [PAttr 3%N] 2%N 4%N;
+   CRemoveTag [PAttr 3%N] 1%N 3%N;
+   CDelete [PAttr 1%N] (LKey (AStr [97%N]));
+   CSet [PAttr 1%N] (LKey (AStr [99%N])) (RA (AInt 3));
+   CModify [PAttr 2%N] (LIndex 1) (RA (AInt 21))].
+
+Example C10_ex_parents :
+  map (fun c => follow ex_env ex_heap ex_root (parent_of c)) ex_changes
+  = [Some (RP 2); Some (RP 2); Some (RP 2); Some (RP 2); Some (RP 2);
+     Some (RP 0); Some (RP 0); Some (RP 1)].
+Proof. vm_compute. reflexivity. Qed.
+
+Example C10_ex_result :
+  apply_changes ex_env ex_heap ex_root ex_changes
+  = [NDict [(AStr [98%N], RA (AInt 2)); (AStr [99%N], RA (AInt 3))];
+     NList [RA (AInt 10); RA (AInt 21)];
+     NBuildable BConfig 9%N [(KName 1%N, RA (AInt 7)); (KName 2%N, RA (AInt 6))]
+                [(KName 1%N, []); (KName 2%N, [4%N])];
+     NBuildable BConfig 7%N [(KName 1%N, RP 0); (KName 2%N, RP 1); (KName 3%N, RP 2)] []].
+Proof. vm_compute. reflexivity. Qed.
+
+Example C10_ex_changes_for :
+  changes_for ex_env ex_heap ex_root 2 ex_changes OpModify
+  = [CModify [PAttr 3%N] (LAttr 1%N) (RA (AInt 7)); CModify [PAttr 3%N] LFn (RA (ASym 9%N))]
+  /\ changes_for ex_env ex_heap ex_root 0 ex_changes OpDelete = [CDelete [PAttr 1%N] (LKey (AStr [97%N]))].
+Proof. vm_compute. split; reflexivity. Qed.
+
+(* the hypothesis of the frame theorem holds of the root, which is the parent of no change *)
+Example C10_ex_frame_hyp :
+  forall c, In c ex_changes -> follow ex_env ex_heap ex_root (parent_of c) <> Some (RP 3).
+Proof.
+  intros c Hc. cbn [ex_changes In] in Hc.
+  repeat (destruct Hc as [Hc|Hc]; [subst c; vm_compute; discriminate |]). destruct Hc.
+Qed.
+
+Example C10_ex_frame : nth_error (apply_changes ex_env ex_heap ex_root ex_changes) 3 = nth_error ex_heap 3.
+Proof. apply C10_apply_frame. exact C10_ex_frame_hyp. Qed.
